@@ -101,6 +101,7 @@ sorted_view_(nullptr)
 template<typename T, typename C, typename A>
 kll_sketch<T, C, A>& kll_sketch<T, C, A>::operator=(const kll_sketch& other) {
   kll_sketch copy(other);
+  reset_sorted_view(); // release the cached view through the allocator that allocated it
   std::swap(comparator_, copy.comparator_);
   std::swap(allocator_, copy.allocator_);
   std::swap(k_, copy.k_);
@@ -114,12 +115,12 @@ kll_sketch<T, C, A>& kll_sketch<T, C, A>::operator=(const kll_sketch& other) {
   std::swap(items_size_, copy.items_size_);
   std::swap(min_item_, copy.min_item_);
   std::swap(max_item_, copy.max_item_);
-  reset_sorted_view();
   return *this;
 }
 
 template<typename T, typename C, typename A>
 kll_sketch<T, C, A>& kll_sketch<T, C, A>::operator=(kll_sketch&& other) {
+  reset_sorted_view(); // release the cached view through the allocator that allocated it
   std::swap(comparator_, other.comparator_);
   std::swap(allocator_, other.allocator_);
   std::swap(k_, other.k_);
@@ -133,7 +134,6 @@ kll_sketch<T, C, A>& kll_sketch<T, C, A>::operator=(kll_sketch&& other) {
   std::swap(items_size_, other.items_size_);
   std::swap(min_item_, other.min_item_);
   std::swap(max_item_, other.max_item_);
-  reset_sorted_view();
   return *this;
 }
 
